@@ -3,3 +3,4 @@ pub mod c05;
 pub mod c12;
 pub mod c20;
 pub mod c17;
+pub mod e3;
